@@ -1,8 +1,12 @@
 // C17 - kill accounting: xattrs, counter, kmsg record and return value match
 // the deed. Conservation laws over the event history.
 #include "victimorder.h"
+#include <tuple>
 
 namespace sim {
+
+Json::Value genHookKillPlanWith(Rng& rng, const KillGenOpts& o);
+KillRun runHookKillPlan();
 
 static Json::Value genC17(Rng& rng) {
   KillGenOpts o;
@@ -11,7 +15,15 @@ static Json::Value genC17(Rng& rng) {
   o.churnP = 0.5;
   o.kernelKillP = 0.2;
   o.dryP = 0.1;
-  Json::Value plan = genKillPlan(rng, o);
+  // a quarter of the plans have prekill hooks (some take several ticks): the
+  // accounting of an attempt then happens on a later tick than the choice
+  bool hooks = rng.chance(0.25);
+  if (hooks) {
+    o.churnP = 0.0;
+    o.minTicks = 4;
+    o.maxTicks = 10;
+  }
+  Json::Value plan = hooks ? genHookKillPlanWith(rng, o) : genKillPlan(rng, o);
   // more pre-existing counters
   for (auto& c : plan["world"]["cgroups"])
     if (rng.chance(0.3)) {
@@ -51,7 +63,7 @@ static int64_t satAdd(int64_t a, int64_t b) {
 }
 
 static void runC17() {
-  KillRun kr = runKillPlan();
+  KillRun kr = runHookKillPlan();
   if (!kr.dr.ran) {
     if (R.violations.empty())
       violate("C17.valid-config-rejected",
@@ -59,7 +71,53 @@ static void runC17() {
     return;
   }
   const auto& L = R.log;
+  // ---- which detector group started the chain an invocation belongs to
+  // detector id -> (ruleset, group), groups of a ruleset in config order
+  std::map<std::string, std::pair<std::string, std::string>> detGroup;
+  std::map<std::string, std::vector<std::string>> groupsOf; // ruleset -> groups
+  std::map<std::string, std::string> rulesetOfWid;
+  for (const auto& rsj : R.plan["config"]["rulesets"]) {
+    std::string rn = rsj["name"].asString();
+    for (const auto& g : rsj["detectors"]) {
+      groupsOf[rn].push_back(g[0].asString());
+      for (Json::ArrayIndex i = 1; i < g.size(); i++)
+        detGroup[g[i]["args"]["id"].asString()] = {rn, g[0].asString()};
+    }
+    for (const auto& a : rsj["actions"])
+      if (a["args"].isMember("wid"))
+        rulesetOfWid[a["args"]["wid"].asString()] = rn;
+  }
+  // (tick, ruleset, group) -> some detector of the group returned STOP
+  std::set<std::tuple<int, std::string, std::string>> stopped;
+  for (const auto& e : L)
+    if (e.kind == "plugin" && e.a == "run" &&
+        e.extra["type"].asString() == "det" && detGroup.count(e.who) &&
+        e.extra["ret"].asString() == "S")
+      stopped.insert({e.tick, detGroup[e.who].first, detGroup[e.who].second});
+  auto firstFired = [&](int tick, const std::string& rn) -> std::string {
+    for (auto& g : groupsOf[rn])
+      if (!stopped.count({tick, rn, g}))
+        return g;
+    return "";
+  };
+  std::vector<std::string> startedBy(kr.invs.size());
+  {
+    std::map<std::string, int> chainStart; // wid -> tick the open chain began
+    for (size_t i = 0; i < kr.invs.size(); i++) {
+      const Invocation& inv = kr.invs[i];
+      auto it = chainStart.find(inv.wid);
+      int start = it == chainStart.end() ? inv.tick : it->second;
+      auto rw = rulesetOfWid.find(inv.wid);
+      if (rw != rulesetOfWid.end())
+        startedBy[i] = firstFired(start, rw->second);
+      if (inv.complete && inv.ret == 'A')
+        chainStart[inv.wid] = start;
+      else
+        chainStart.erase(inv.wid);
+    }
+  }
   std::set<int> uuidsSeen;
+  std::map<std::string, std::set<int64_t>> openHooks; // wid -> live invocations
   std::map<std::string, int> lastRunTick; // wid -> tick of previous run
   int wetAttempts = 0, withSignal = 0, zeroKill = 0;
   for (size_t ii = 0; ii < kr.invs.size(); ii++) {
@@ -183,7 +241,11 @@ static void runC17() {
         }
         // the record names cgroup, ruleset, detector group and plugin
         std::string rs = inv.ctx["ruleset"].asString();
-        std::string dg = inv.ctx["dg"].asString();
+        // the group that started this chain, derived from what the scripted
+        // detectors returned on the tick the chain began - not from the
+        // context handed to the plugin
+        std::string dg = startedBy[ii].empty() ? inv.ctx["dg"].asString()
+                                               : startedBy[ii];
         bool ok = kmsgLine.find(" " + a.rel + " ") != std::string::npos &&
             kmsgLine.find("ruleset:[" + rs + "]") != std::string::npos &&
             kmsgLine.find("detectorgroup:[" + dg + "]") != std::string::npos &&
@@ -223,8 +285,23 @@ static void runC17() {
       sampling = it == lastRunTick.end() || it->second != inv.tick - 1;
       lastRunTick[inv.wid] = inv.tick;
     }
+    // a prekill hook invocation fired in this run and still alive at its
+    // end: the action is waiting for it
+    bool hookPending = false;
+    {
+      std::set<int64_t>& open = openHooks[inv.wid]; // carried across ticks
+      for (size_t k = inv.begin + 1; k < inv.end && k < L.size(); k++) {
+        if (L[k].kind != "hook")
+          continue;
+        if (L[k].a == "fire")
+          open.insert(L[k].n1);
+        else if (L[k].a == "destroy")
+          open.erase(L[k].n1);
+      }
+      hookPending = !open.empty();
+    }
     char want;
-    if (sampling)
+    if (sampling || hookPending)
       want = 'A';
     else if ((dry ? anySelected : signalledAttempts > 0) && !ac)
       want = 'S';
